@@ -59,6 +59,17 @@
 //   - wide directories: sets with errors have a directory of 24, 32, 64 or 200 children (leaves,
 //     containers) with errors in two or more child subtrees, in shared sets (all readers call
 //     GetErrors on it together) and in pipeline sets;
+//   - namespace-to-module look-ups whose sequential answer is an ERROR or a TIE-BREAK: two shared
+//     sets in three hold one or two small modules that declare the namespace of another module
+//     (two different modules, one namespace: FindModuleByNamespace, and InstantiatingModule of
+//     every node of these modules, answer with an error, which is never cached), two in three
+//     load older revisions of one module as well (nsExtras); a third of the private sets likewise.
+//     Answers are compared in canonical form: which object came back, or the text of the error;
+//   - namespace duels (duelPhase): five times per round a fresh small set (3-5 modules over three
+//     names, four revisions, three namespaces) is built, all goroutines of the round line up
+//     behind a start barrier and make the same first-time look-ups at the same moment, three
+//     times over; expected answers come from a twin set asked sequentially, and the set itself is
+//     asked once more afterwards (what the concurrent callers left in the cache);
 //   - the conditions that put the allow-listed write sites (harness/cmd/extract-access/
 //     allow.json) outside the claim are asserted: ToEntry of a processed module returns the entry
 //     cached by Process; Find is called with paths of existing nodes only and afterwards no root
@@ -105,6 +116,7 @@ type modSrc struct {
 
 type genStats struct {
 	modules, submodules, rpcs, augments, uses, deviations, withErrors, orphans, leafrefs, wide int
+	twins, revisions                                                                           int
 }
 
 // palette says which statement kinds a generated set may use.  The base kinds (module, import,
@@ -117,6 +129,12 @@ type palette struct {
 	// wide (not a staged kind, set by the caller): in a set with errors module m0 gets a WIDE
 	// directory of that many children with errors in two or more child subtrees (see wideDir)
 	wide int
+	// twin, revs (not staged kinds, set by the caller; base statement kinds only, see nsExtras):
+	// twin = one or two more modules of OTHER names declare the namespace of one of the modules
+	// (the namespace-to-module look-up is ambiguous: its sequential answer is an error);
+	// revs = one module has a revision statement and one or two OLDER revisions of it are loaded
+	// as well (the look-up is a tie-break between objects of one name)
+	twin, revs bool
 }
 
 var paletteKinds = []string{"uses", "leaf-list", "list", "choice", "nested", "rpc", "action", "notification", "anydata", "augment", "deviation", "submodule"}
@@ -267,6 +285,11 @@ func genSet(r *rand.Rand, withErrors bool, pal palette) ([]modSrc, genStats) {
 			fmt.Fprintf(b, "%s}\n", ind)
 		}
 	}
+	// the module of which older revisions are loaded too (see nsExtras)
+	revOf := -1
+	if pal.revs {
+		revOf = r.Intn(nm)
+	}
 	for i := 0; i < nm; i++ {
 		var others []int
 		for j := i + 1; j < nm; j++ {
@@ -287,6 +310,9 @@ func genSet(r *rand.Rand, withErrors bool, pal palette) ([]modSrc, genStats) {
 			} else {
 				b.WriteString("  include s0;\n")
 			}
+		}
+		if i == revOf {
+			b.WriteString("  revision 2020-01-01;\n")
 		}
 		fmt.Fprintf(&b, "  typedef t%d { type string; default \"d%d\"; }\n", i, i)
 		fmt.Fprintf(&b, "  typedef e%d { type enumeration { enum one; enum two; } default one; }\n", i)
@@ -392,7 +418,50 @@ func genSet(r *rand.Rand, withErrors bool, pal palette) ([]modSrc, genStats) {
 	if withErrors {
 		st.withErrors++
 	}
+	out = nsExtras(r, out, nm, revOf, pal, &st)
 	return out, st
+}
+
+// nsExtras adds, to a generated set, the small modules that make the NAMESPACE-TO-MODULE look-up
+// (Modules.FindModuleByNamespace, and Entry.InstantiatingModule which goes through it) answer
+// with something other than "the one module of that namespace" (base statement kinds only):
+//
+//	twin  one or two modules tw0, tw1 of names of their own declare the namespace urn:m<j> of module
+//	      m<j>: two DIFFERENT modules, one namespace.  The sequential answer for that namespace,
+//	      and for the instantiating module of every node of m<j> and of the twins, is an error
+//	      (which is never cached: every call scans the module table again);
+//	revs  module m<revOf> carries `revision 2020-01-01` and an older revision m<revOf>@2018-01-01
+//	      (same namespace) is loaded as well, sometimes also m<revOf>@2017-01-01 which declares a
+//	      namespace of its own (urn:m<revOf>:v2017, found under a name@revision key only); the
+//	      sequential answer is a tie-break: the revision the bare name refers to.  The older
+//	      revisions come before or after the other sources (load order varies).
+//
+// All of them hold a container with two leaves and nothing that goyang keeps in set-wide tables.
+func nsExtras(r *rand.Rand, out []modSrc, nm, revOf int, pal palette, st *genStats) []modSrc {
+	if pal.twin {
+		st.twins++
+		j := r.Intn(nm)
+		for q, n := 0, 1+r.Intn(2); q < n; q++ {
+			out = append(out, modSrc{Name: fmt.Sprintf("tw%d.yang", q),
+				Text: fmt.Sprintf("module tw%d {\n  yang-version 1.1;\n  namespace \"urn:m%d\";\n  prefix tw%d;\n  container twc%d { leaf v { type string; } leaf w { type uint8; default 1; } }\n}\n", q, j, q, q)})
+		}
+	}
+	if revOf >= 0 {
+		st.revisions++
+		var olds []modSrc
+		olds = append(olds, modSrc{Name: fmt.Sprintf("m%d@2018-01-01.yang", revOf),
+			Text: fmt.Sprintf("module m%d {\n  yang-version 1.1;\n  namespace \"urn:m%d\";\n  prefix p%d;\n  revision 2018-01-01;\n  container old2018 { leaf v { type string; } leaf w { type uint8; default 8; } }\n}\n", revOf, revOf, revOf)})
+		if r.Intn(2) == 0 {
+			olds = append(olds, modSrc{Name: fmt.Sprintf("m%d@2017-01-01.yang", revOf),
+				Text: fmt.Sprintf("module m%d {\n  yang-version 1.1;\n  namespace \"urn:m%d:v2017\";\n  prefix p%d;\n  revision 2017-01-01;\n  container old2017 { leaf v { type string; } }\n}\n", revOf, revOf, revOf)})
+		}
+		if r.Intn(2) == 0 {
+			out = append(olds, out...)
+		} else {
+			out = append(out, olds...)
+		}
+	}
+	return out
 }
 
 // orphanSub: a submodule of m0 that no module includes.  It is loaded explicitly, Process converts
@@ -746,9 +815,15 @@ func writeSet(name string, srcs []modSrc) string {
 	return dir
 }
 
+// modNames: one key of the module table per loaded module object: the bare name for the revision
+// the bare name refers to (its name@revision key is the same object), name@revision for every
+// other (older) revision of that name.
 func modNames(ms *yang.Modules) []string {
 	var ns []string
-	for k := range ms.Modules {
+	for k, m := range ms.Modules {
+		if i := strings.Index(k, "@"); i >= 0 && ms.Modules[k[:i]] == m {
+			continue
+		}
 		ns = append(ns, k)
 	}
 	sort.Strings(ns)
@@ -973,11 +1048,14 @@ func locate(roots map[string]*yang.Entry, mod string, path []string) *yang.Entry
 // the paths of its must / when expressions), whose imports nothing linked or used while the set
 // was processed.  `nsFirst` follow: the namespace look-ups.
 func script(ms *yang.Modules, roots map[string]*yang.Entry, r *rand.Rand) (first, nsFirst, rest []op) {
-	for name, m := range ms.Modules {
-		if strings.Contains(name, "@") {
-			continue
+	// every namespace some loaded module declares (older revisions included), once each, and one
+	// that nobody declares
+	seenNS := map[string]bool{}
+	for _, name := range modNames(ms) {
+		if m := ms.Modules[name]; m.Namespace != nil && !seenNS[m.Namespace.Name] {
+			seenNS[m.Namespace.Name] = true
+			nsFirst = append(nsFirst, op{Kind: "fmbn", Mod: name, Arg: m.Namespace.Name})
 		}
-		nsFirst = append(nsFirst, op{Kind: "fmbn", Mod: name, Arg: m.Namespace.Name})
 	}
 	nsFirst = append(nsFirst, op{Kind: "fmbn", Arg: "urn:no-such-namespace"})
 	names := rootNames(ms)
@@ -1194,6 +1272,10 @@ func prefixFor(ms *yang.Modules, ctx *yang.Entry, target string) string {
 			return ""
 		}
 		own = root.BelongsTo.Name
+	} else if ms.Modules[own] != root {
+		// an older revision: its tree goes by name@revision here (see modNames), and its own
+		// prefix leads into that tree, not into the one of the revision the bare name refers to
+		own = root.FullName()
 	}
 	if own == target {
 		return root.GetPrefix()
@@ -1222,11 +1304,7 @@ func run(ms *yang.Modules, roots map[string]*yang.Entry, pre map[string]*yang.En
 			}
 			return entryDump(got) + " " + where
 		case "fmbn":
-			m, err := ms.FindModuleByNamespace(o.Arg)
-			if err != nil {
-				return "error"
-			}
-			return m.Name
+			return fmbnAnswer(ms, o.Arg)
 		case "toentry":
 			if yang.ToEntry(rootOf(ms, o.Mod)) != roots[o.Mod] {
 				return "GUARD toentry-miss: ToEntry of a processed module did not return the cached entry"
@@ -1251,8 +1329,7 @@ func run(ms *yang.Modules, roots map[string]*yang.Entry, pre map[string]*yang.En
 		}
 		switch o.Kind {
 		case "im":
-			s, err := e.InstantiatingModule()
-			return fmt.Sprintf("%s/%v", s, err != nil)
+			return imAnswer(e)
 		case "fmbp":
 			m := yang.FindModuleByPrefix(e.Node, o.Arg)
 			if m == nil {
@@ -1299,6 +1376,84 @@ func run(ms *yang.Modules, roots map[string]*yang.Entry, pre map[string]*yang.En
 		}
 		return "HARNESS: unknown op"
 	})
+}
+
+const clauseSameResult = `C19 clause "every caller obtains the result a sequential run would give"`
+
+// opCall words a reader operation as the call it makes.
+func opCall(o op) string {
+	at := o.Mod + ":/" + strings.Join(o.Path, "/")
+	switch o.Kind {
+	case "fmbn":
+		return fmt.Sprintf("Modules.FindModuleByNamespace(%q)", o.Arg)
+	case "im":
+		return "Entry.InstantiatingModule() at " + at
+	case "ns":
+		return "Entry.Namespace() at " + at
+	case "fmbp":
+		return fmt.Sprintf("FindModuleByPrefix(node of %s, %q)", at, o.Arg)
+	case "find-from", "find-rel":
+		return fmt.Sprintf("Entry.Find(%q) from %s", o.Arg, at)
+	case "find-path":
+		return "Entry.Find(leafref path) from " + at
+	case "errs", "errs-at":
+		return "Entry.GetErrors() at " + at
+	}
+	return o.String()
+}
+
+// nsTable: the module table of a set as far as namespaces go: every key, the object's full name
+// when the key is a bare name that stands for a revision, and the namespace the module declares.
+func nsTable(ms *yang.Modules) string {
+	var ks []string
+	for k := range ms.Modules {
+		ks = append(ks, k)
+	}
+	sort.Strings(ks)
+	var out []string
+	for _, k := range ks {
+		m := ms.Modules[k]
+		ns := "-"
+		if m.Namespace != nil {
+			ns = m.Namespace.Name
+		}
+		if full := m.FullName(); full != k {
+			out = append(out, fmt.Sprintf("%s (= %s) namespace %s", k, full, ns))
+		} else {
+			out = append(out, fmt.Sprintf("%s namespace %s", k, ns))
+		}
+	}
+	return strings.Join(out, ", ")
+}
+
+// fmbnAnswer: the answer of the namespace-to-module look-up in canonical form: WHICH object came
+// back (its name, and the key of the module table under which that very object is filed) or the
+// text of the error.  (The text is compared between two runs of the same code on the same set:
+// concurrent against sequential; the look-up visits the modules in sorted order, so it is fixed.)
+func fmbnAnswer(ms *yang.Modules, ns string) string {
+	m, err := ms.FindModuleByNamespace(ns)
+	switch {
+	case err != nil && m != nil:
+		return fmt.Sprintf("module %s AND error %q", m.Name, err.Error())
+	case err != nil:
+		return fmt.Sprintf("error %q", err.Error())
+	case m == nil:
+		return "no module, no error"
+	}
+	full := m.FullName()
+	if ms.Modules[full] != m {
+		return fmt.Sprintf("module %s, an object that is not Modules[%q]", m.Name, full)
+	}
+	return fmt.Sprintf("module %s, the object filed as Modules[%q]", m.Name, full)
+}
+
+// imAnswer: Entry.InstantiatingModule in canonical form: the module name, or the error text.
+func imAnswer(e *yang.Entry) string {
+	s, err := e.InstantiatingModule()
+	if err != nil {
+		return fmt.Sprintf("%q, error %q", s, err.Error())
+	}
+	return fmt.Sprintf("%q", s)
 }
 
 // snapshot of what the allow-listed guards must leave unchanged
@@ -1349,6 +1504,232 @@ func (a snapshot) diff(b snapshot) []string {
 }
 
 // ---------------------------------------------------------------------------------------------
+// namespace duels
+
+// duelSets: fresh sets per round on which all goroutines make the same look-ups together.
+const duelSets = 5
+
+// duelReps: how often every goroutine repeats the look-ups on one set.
+const duelReps = 3
+
+// duelSet: a SMALL module set made for the namespace-to-module look-up: 3-5 modules drawn from
+// three names (a, b, c), four revisions (none, 2018-01-01, 2019-06-01, 2020-01-01) and three
+// namespaces (urn:x, urn:y, urn:z), each (name, revision) once, in a random load order; in half of
+// the sets the first two are forced to be two DIFFERENT modules with ONE namespace.  So a set has,
+// in varying combination: a namespace two or three different modules declare (sequential answer:
+// an error, never cached), several revisions of one module with one namespace (a tie-break: the
+// revision the bare name refers to), an older revision with a namespace only it declares (found
+// under its name@revision key), an older revision that shares its namespace with another
+// module, a module without a revision statement outranked by a revision of the same name, a
+// namespace with exactly one module, namespaces nobody declares.  Every module holds one
+// container with one leaf (base statement kinds only), so that loading costs next to nothing.
+func duelSet(r *rand.Rand) []modSrc {
+	names := []string{"a", "b", "c"}
+	revs := []string{"", "2018-01-01", "2019-06-01", "2020-01-01"}
+	nss := []string{"urn:x", "urn:y", "urn:z"}
+	n := 3 + r.Intn(3)
+	force := r.Intn(2) == 0
+	seen := map[string]bool{}
+	var out []modSrc
+	first := -1
+	firstNS := ""
+	for len(out) < n {
+		ni, rv, ns := r.Intn(3), revs[r.Intn(4)], nss[r.Intn(3)]
+		if force && len(out) == 1 {
+			ni, ns = (first+1+r.Intn(2))%3, firstNS
+		}
+		key := names[ni] + "@" + rv
+		if seen[key] {
+			continue
+		}
+		seen[key] = true
+		if len(out) == 0 {
+			first, firstNS = ni, ns
+		}
+		file, revStmt, tag := names[ni], "", "norev"
+		if rv != "" {
+			file, revStmt, tag = key, "  revision "+rv+";\n", strings.ReplaceAll(rv, "-", "")
+		}
+		out = append(out, modSrc{Name: file + ".yang",
+			Text: fmt.Sprintf("module %s {\n  yang-version 1.1;\n  namespace %q;\n  prefix %s;\n%s  container c%s { leaf v { type string; } }\n}\n", names[ni], ns, names[ni], revStmt, tag)})
+	}
+	return out
+}
+
+// duelQueries: the calls every goroutine makes on a duel set, in this order: the look-up of every
+// namespace of the alphabet (declared by one module, by several, or by none) and of one more
+// that nobody declares, in an order drawn per set, then namespace and instantiating module of the
+// leaf of every loaded module object.
+func duelQueries(r *rand.Rand) []op {
+	var qs []op
+	nss := []string{"urn:x", "urn:y", "urn:z", "urn:nobody"}
+	for _, i := range r.Perm(len(nss)) {
+		qs = append(qs, op{Kind: "fmbn", Arg: nss[i]})
+	}
+	return qs
+}
+
+// duelBuilt: a loaded and processed duel set, with the leaf of every module object.
+type duelBuilt struct {
+	ms     *yang.Modules
+	leaves map[string]*yang.Entry // by key of the module table (see modNames)
+	cname  map[string]string      // the name of the container above the leaf
+	errs   []string
+	bad    string // why the set cannot be used ("" = fine)
+}
+
+func buildDuel(srcs []modSrc) duelBuilt {
+	var d duelBuilt
+	d.bad = guard(func() string {
+		d.ms, d.errs = load(srcs, "")
+		d.leaves, d.cname = map[string]*yang.Entry{}, map[string]string{}
+		for _, name := range modNames(d.ms) {
+			root := yang.ToEntry(d.ms.Modules[name])
+			for _, c := range root.Dir {
+				if v := c.Dir["v"]; v != nil {
+					d.leaves[name], d.cname[name] = v, c.Name
+				}
+			}
+		}
+		return ""
+	})
+	if d.bad == "" && len(d.errs) > 0 {
+		d.bad = fmt.Sprintf("does not process cleanly: %q", d.errs)
+	}
+	return d
+}
+
+// duelRun: one call on a duel set.
+func duelRun(d duelBuilt, q op) string {
+	return guard(func() string {
+		switch q.Kind {
+		case "fmbn":
+			return fmbnAnswer(d.ms, q.Arg)
+		case "im":
+			return imAnswer(d.leaves[q.Mod])
+		case "ns":
+			return d.leaves[q.Mod].Namespace().Name
+		}
+		return "HARNESS: unknown op"
+	})
+}
+
+// duelFull: the namespace queries plus, for the leaf of every module object, namespace and
+// instantiating module (derived from the structure, reading only).
+func duelFull(d duelBuilt, qs []op) []op {
+	qs = append([]op{}, qs...)
+	var ks []string
+	for k := range d.leaves {
+		ks = append(ks, k)
+	}
+	sort.Strings(ks)
+	for _, k := range ks {
+		path := []string{d.cname[k], "v"}
+		qs = append(qs, op{Kind: "im", Mod: k, Path: path}, op{Kind: "ns", Mod: k, Path: path})
+	}
+	return qs
+}
+
+// duelPhase: namespace look-ups under contention, over FRESH sets: duelSets times per round a small
+// set (duelSet) is loaded and processed by one goroutine, which makes no look-up on it; then ALL n
+// goroutines of the round, lined up behind a start barrier and released together, make the same
+// calls in the same order - the first-time (uncached) look-up of every namespace, then namespace
+// and instantiating module of a leaf of every module - duelReps times over.  Afterwards,
+// sequentially: a twin of the set, loaded afresh, is asked the same (the expected answers, first
+// time and again), every concurrent answer is compared with it, and the set the goroutines used
+// is asked once more (what the concurrent callers left in the cache must be what a sequential
+// run leaves there).
+func duelPhase(seed int64, round, n int) (evals int64, problems []string, sets, anomalies int) {
+	r := rand.New(rand.NewSource(roundSeed(seed, round) + 23))
+	for j := 0; j < duelSets; j++ {
+		srcs := duelSet(r)
+		base := duelQueries(r)
+		d := buildDuel(srcs)
+		if d.bad != "" {
+			anomalies++
+			continue
+		}
+		qs := duelFull(d, base)
+		got := make([][]string, n)
+		var ready, done sync.WaitGroup
+		start := make(chan struct{})
+		for g := 0; g < n; g++ {
+			ready.Add(1)
+			done.Add(1)
+			go func(g int) {
+				defer done.Done()
+				out := make([]string, 0, duelReps*len(qs))
+				ready.Done()
+				<-start
+				for rep := 0; rep < duelReps; rep++ {
+					for _, q := range qs {
+						out = append(out, duelRun(d, q))
+					}
+				}
+				got[g] = out
+			}(g)
+		}
+		ready.Wait()
+		close(start)
+		done.Wait()
+		sets++
+		// the sequential run: a twin loaded afresh
+		twin := buildDuel(srcs)
+		if twin.bad != "" {
+			anomalies++
+			continue
+		}
+		want := make([]string, len(qs))
+		for rep := 0; rep < duelReps; rep++ {
+			for i, q := range qs {
+				a := duelRun(twin, q)
+				if rep == 0 {
+					want[i] = a
+					if strings.HasPrefix(a, "PANIC") || strings.HasPrefix(a, "HARNESS") {
+						anomalies++
+					}
+				} else if a != want[i] {
+					anomalies++ // a sequential answer that changes when asked again: not C19's subject
+				}
+			}
+		}
+		table := nsTable(twin.ms)
+		np := 0
+		report := func(who string, i int, gotAns string) {
+			if np++; np > 4 || len(problems) >= 12 {
+				return
+			}
+			problems = append(problems, fmt.Sprintf("%s: %s: concurrent answer %s, sequential answer %s (%s, on a fresh processed set that all %d goroutines query together: namespace set %d of round %d); module table of the set: %s; sources: %s",
+				clauseSameResult, opCall(qs[i]), gotAns, want[i], who, n, j, round, table, duelSources(srcs)))
+		}
+		for g := 0; g < n; g++ {
+			for k, a := range got[g] {
+				evals++
+				if i := k % len(qs); a != want[i] {
+					report(fmt.Sprintf("goroutine %d, call %d of %d", g, k/len(qs)+1, duelReps), i, a)
+				}
+			}
+		}
+		for i, q := range qs {
+			evals++
+			if a := duelRun(d, q); a != want[i] {
+				report("one goroutine afterwards (what the concurrent callers left behind)", i, a)
+			}
+		}
+	}
+	return
+}
+
+// duelSources: the texts of a duel set on one line.
+func duelSources(srcs []modSrc) string {
+	var out []string
+	for _, s := range srcs {
+		out = append(out, s.Name+" = "+strings.Join(strings.Fields(s.Text), " "))
+	}
+	return strings.Join(out, " | ")
+}
+
+// ---------------------------------------------------------------------------------------------
 // one round
 
 type roundResult struct {
@@ -1391,6 +1772,17 @@ type roundResult struct {
 	// sequentially before the round
 	RejectedTexts int `json:"rejected_texts"`
 	Between       int `json:"rejected_between"`
+	// Twin: the shared set has two or three different modules with one namespace; Revs: it has
+	// several revisions of one module; TwinPrivate, RevsPrivate: private sets of such shapes;
+	// ErrorNS: namespace look-ups and instantiating-module queries of the reader script whose
+	// sequential answer is an error; DuelSets: fresh small sets of the round on which all
+	// goroutines made the same namespace look-ups together (see duelPhase)
+	Twin        bool `json:"twin,omitempty"`
+	Revs        bool `json:"revs,omitempty"`
+	TwinPrivate int  `json:"twin_private,omitempty"`
+	RevsPrivate int  `json:"revs_private,omitempty"`
+	ErrorNS     int  `json:"error_ns,omitempty"`
+	DuelSets    int  `json:"duel_sets"`
 }
 
 func roundSeed(seed int64, round int) int64 { return seed*1000003 + int64(round)*7919 + 17 }
@@ -1429,6 +1821,7 @@ func doRound(seed int64, round, n, batch int) roundResult {
 	if st.wide > 0 {
 		res.Wide = spal.wide
 	}
+	res.Twin, res.Revs = st.twins > 0, st.revisions > 0
 	defer os.RemoveAll(fmt.Sprintf("r%d", round))
 	res.SharedHash = hashSet(shared)
 	res.Modules = st.modules
@@ -1468,7 +1861,12 @@ func doRound(seed int64, round, n, batch int) roundResult {
 			ppal.pins = r.Intn(2) == 0
 			// a private set with errors has a wide directory too (small widths more often)
 			ppal.wide = []int{24, 24, 32, 32, 64, 200}[r.Intn(6)]
+			// a third of the private sets have two modules with one namespace, a third several
+			// revisions of one module (their dumps hold the instantiating module of every node)
+			ppal.twin, ppal.revs = r.Intn(3) == 0, r.Intn(3) == 0
 			set, pst := genSet(r, r.Intn(5) == 0, ppal)
+			res.TwinPrivate += pst.twins
+			res.RevsPrivate += pst.revisions
 			ps := privSet{srcs: set, rej: rejectedFor(rr, fmt.Sprintf("r%d-p%d-%d", round, k, q))}
 			if r.Intn(3) == 0 {
 				ps.dir = writeSet(fmt.Sprintf("r%d/p%d-%d", round, k, q), append(append([]modSrc{}, set...), ps.rej[1:]...))
@@ -1583,6 +1981,15 @@ func doRound(seed int64, round, n, batch int) roundResult {
 	close(start)
 	wg.Wait()
 
+	// ---- namespace look-ups under contention on fresh small sets (all n goroutines together)
+	{
+		ev, probs, sets, anom := duelPhase(seed, round, n)
+		res.Evals += ev
+		res.Problems = append(res.Problems, probs...)
+		res.DuelSets = sets
+		res.SeqAnomalies += anom
+	}
+
 	// ---- afterwards, sequentially: the reference answers
 	if builderPanic != "" {
 		// a crash while processing is C01's subject; without a shared set there is nothing to read
@@ -1637,7 +2044,7 @@ func doRound(seed int64, round, n, batch int) roundResult {
 			for k := 0; k < nr; k++ {
 				res.Evals += stormReps
 				if gotStorm[k][i] != want && len(res.Problems) < 20 {
-					res.Problems = append(res.Problems, fmt.Sprintf("reader %d: storm (all readers at once, %d times), %s: concurrent answer %q, sequential answer %q", k, stormReps, o, gotStorm[k][i], want))
+					res.Problems = append(res.Problems, fmt.Sprintf("%s: reader %d of the shared set: storm (all readers at once, %d times), %s: concurrent answer %q, sequential answer %q", clauseSameResult, k, stormReps, opCall(o), gotStorm[k][i], want))
 				}
 			}
 		}
@@ -1651,6 +2058,8 @@ func doRound(seed int64, round, n, batch int) roundResult {
 			case strings.HasPrefix(want[i], "GUARD"):
 				// a guard of the allow-list fires on an input the property speaks about
 				res.Problems = append(res.Problems, fmt.Sprintf("sequential run: %s -> %s", o, want[i]))
+			case (o.Kind == "fmbn" || o.Kind == "im") && strings.Contains(want[i], "error \""):
+				res.ErrorNS++
 			case strings.HasPrefix(want[i], "HARNESS"), strings.HasPrefix(want[i], "Find returned"), strings.HasPrefix(want[i], "PANIC"):
 				// wrong or crashing look-ups are other properties' business (C17, C01); here the
 				// sequential answer is the reference whatever it is.  Counted, not reported.
@@ -1661,7 +2070,11 @@ func doRound(seed int64, round, n, batch int) roundResult {
 			for i := range ops {
 				res.Evals++
 				if got[k][i] != want[i] {
-					res.Problems = append(res.Problems, fmt.Sprintf("reader %d: %s: concurrent answer %q, sequential answer %q", k, ops[i], got[k][i], want[i]))
+					p := fmt.Sprintf("%s: %s: concurrent answer %s, sequential answer %s (reader %d of the shared set)", clauseSameResult, opCall(ops[i]), got[k][i], want[i], k)
+					if ops[i].Kind == "fmbn" || ops[i].Kind == "im" {
+						p += "; module table of the shared set: " + nsTable(refMS)
+					}
+					res.Problems = append(res.Problems, p)
 					if len(res.Problems) > 20 {
 						break
 					}
@@ -1694,10 +2107,14 @@ func doRound(seed int64, round, n, batch int) roundResult {
 
 // sharedPalette: what the shared set of a round may use beyond the staged kinds: every other
 // round it is a directory set with pinned revision-dates; in the rounds whose shared set has
-// errors (every fourth) its module m0 has a wide directory of 24, 32, 64 or 200 children in turn.
+// errors (every fourth) its module m0 has a wide directory of 24, 32, 64 or 200 children in turn;
+// namespace shapes (see nsExtras) by round modulo 3.
 func sharedPalette(pal palette, round int) palette {
 	pal.pins = round%2 == 1
 	pal.wide = wideWidths[(round/4)%len(wideWidths)]
+	// two rounds in three: two or three different modules with one namespace; two rounds in three
+	// (one of them the same): several revisions of one module
+	pal.twin, pal.revs = round%3 != 2, round%3 != 0
 	return pal
 }
 
@@ -1740,6 +2157,22 @@ func showRound(seed int64, round, batch int) {
 	for _, o := range append(append(f0, a...), b...) {
 		fmt.Printf("%-60s -> %s\n", o, run(ms, roots, nil, o))
 	}
+	fmt.Printf("---- module table of the shared set: %s\n", nsTable(ms))
+	dr := rand.New(rand.NewSource(roundSeed(seed, round) + 23))
+	for j := 0; j < duelSets; j++ {
+		srcs := duelSet(dr)
+		base := duelQueries(dr)
+		fmt.Printf("---- namespace set %d of the round (fresh; all goroutines make these calls together, %d times): %s\n", j, duelReps, duelSources(srcs))
+		d := buildDuel(srcs)
+		if d.bad != "" {
+			fmt.Printf("     not usable: %s\n", d.bad)
+			continue
+		}
+		fmt.Printf("     module table: %s\n", nsTable(d.ms))
+		for _, q := range duelFull(d, base) {
+			fmt.Printf("     %-60s -> %s\n", opCall(q), duelRun(d, q))
+		}
+	}
 }
 
 // ---------------------------------------------------------------------------------------------
@@ -1752,7 +2185,7 @@ func showRound(seed int64, round, batch int) {
 // processed before or alongside must not show.  (It runs after the last round only, because it
 // converts every statement kind and would spoil the cold introduction of kinds otherwise.)
 func canarySet() []modSrc {
-	full := palette{true, true, true, true, true, true, true, true, true, true, true, true, false, 0}
+	full := palette{true, true, true, true, true, true, true, true, true, true, true, true, false, 0, false, false}
 	set, _ := genSet(rand.New(rand.NewSource(424242)), false, full)
 	return append(set, modSrc{Name: "plain.yang", Text: `module plain {
   yang-version 1.1;
@@ -1996,6 +2429,15 @@ func raceParties(stderr string) string {
 	return parts[0] + " against " + parts[1]
 }
 
+// whatOf: the headline of a round with problems (a problem that names the clause it violates
+// speaks for itself).
+func whatOf(p string) string {
+	if strings.HasPrefix(p, "C19 clause") {
+		return p
+	}
+	return "C19: concurrent run differs from the sequential run, or a guard of the allow-list fired: " + p
+}
+
 // replayInfo: the failing round is re-run together with the rounds that preceded it in its
 // process (rounds [Round - Round%Batch, Round]), because what is cold in a round depends on them.
 type replayInfo struct {
@@ -2059,6 +2501,7 @@ func main() {
 	var mu sync.Mutex
 	var nodes, ops, firstNS, mods, withErr, roundsDone, unexpected, anomalies, canaries, dirSets, stormNodes int64
 	var errStorm, orphanRounds, orphanFirst, leafrefFinds, rejTexts, rejBetween, widePrivate int64
+	var twinShared, revsShared, twinPrivate, revsPrivate, errorNS, duels int64
 	wideHist := map[string]int64{}
 	ownErrHist := map[string]int64{}
 	type job struct{ from, to int }
@@ -2109,6 +2552,16 @@ func main() {
 					rejTexts += int64(rr.RejectedTexts)
 					rejBetween += int64(rr.Between)
 					widePrivate += int64(rr.WidePrivate)
+					if rr.Twin {
+						twinShared++
+					}
+					if rr.Revs {
+						revsShared++
+					}
+					twinPrivate += int64(rr.TwinPrivate)
+					revsPrivate += int64(rr.RevsPrivate)
+					errorNS += int64(rr.ErrorNS)
+					duels += int64(rr.DuelSets)
 					if rr.Wide > 0 {
 						wideHist[fmt.Sprint(rr.Wide)]++
 					}
@@ -2145,7 +2598,7 @@ func main() {
 					if len(rr.Problems) > 0 {
 						res.AddDisagreement(lib.Disagreement{Kind: "spec", SpecVerdict: "violates",
 							Input: map[string]any{"seed": f.Seed, "round": rr.Round, "goroutines": n, "shared_set": rr.SharedHash},
-							Go:    rr.Problems, What: "C19: concurrent run differs from the sequential run, or a guard of the allow-list fired: " + rr.Problems[0],
+							Go:    rr.Problems, What: whatOf(rr.Problems[0]),
 							Replay: replayInfo{f.Seed, rr.Round, n, batch}})
 					}
 				}
@@ -2208,6 +2661,12 @@ func main() {
 	res.Distribution["rejected_texts_loaded_sequentially_between_rounds"] = rejBetween
 	res.Distribution["shared_sets_with_a_wide_directory_with_errors_in_2_or_more_child_subtrees_by_number_of_children"] = wideHist
 	res.Distribution["private_sets_with_such_a_wide_directory"] = widePrivate
+	res.Distribution["shared_sets_with_two_or_three_different_modules_declaring_one_namespace"] = twinShared
+	res.Distribution["shared_sets_with_several_revisions_of_one_module"] = revsShared
+	res.Distribution["private_sets_with_two_or_three_different_modules_declaring_one_namespace"] = twinPrivate
+	res.Distribution["private_sets_with_several_revisions_of_one_module"] = revsPrivate
+	res.Distribution["reader_script_namespace_and_instantiating_module_queries_whose_sequential_answer_is_an_error_per_reader_total"] = errorNS
+	res.Distribution["fresh_small_namespace_sets_queried_by_all_goroutines_together_behind_a_start_barrier"] = duels
 	res.Distribution["shared_entries_with_erroneous_descendants_by_number_of_own_errors_(3_or_more)"] = ownErrHist
 	if roundsDone > 0 && unexpected*2 > roundsDone {
 		lib.Fatal("the generator is out of date: %d of %d module sets meant to be valid do not process cleanly", unexpected, roundsDone)
@@ -2228,6 +2687,8 @@ func main() {
 		"orphan submodules: when submodule is a statement kind of the process, half of the sets load a submodule o0 of m0 explicitly that no module includes (Process converts it but never links its imports); it imports m1 for leafref paths only, m2 for a must and a when expression only, m3 for a type and a leafref path; the building goroutine makes no look-up on the shared set, and every reader begins with r.Find(r.Type.Path) on the leafref leaves of the orphan's own tree (ToEntry(ms.SubModules[\"o0\"])) and Find of the must / when paths from their nodes, in the same order; the expected answers come from a twin set built afterwards; the trees of all submodules (included ones too) are reader roots like the module trees; leafref leaves with absolute prefixed paths also occur in ordinary modules and in the included submodule s0",
 		"rejected texts: every module set of a round comes with 2-3 texts goyang must reject (missing / extra closing brace, text ending inside a statement, missing semicolon, quoted keyword, unterminated string, unknown statement, several mistakes at once; 3-30 leaves, one in eight 100 more, the mistake at a random line; a file name nobody else uses); the goroutine that loads the set hands the first to a throw-away Modules and the others to the set's own Modules before and between its sources (Read by name in a directory set); the diagnostics must equal the ones of the sequential twin, and a diagnostic that names another .yang file is reported as naming a file of another set; before every round (except the first round of every other process, which stays cold) texts of all kinds are loaded sequentially on fresh Modules and on one Modules that takes them all, so that whatever an error path hands back (a pooled parser, a buffer) is there, possibly twice, when the goroutines of the round start parsing",
 		"wide directories: in sets with errors (every fourth shared set, a fifth of the private sets) module m0 has a directory of 24, 32, 64 or 200 children (every third a container, the rest leaves; two times in three below `container wide`, else directly in the module) with errors in 2-6 child subtrees chosen at random (one time in four in every container child): leaves of unknown types directly, one and two levels down, and uses of one grouping with such a leaf in several children; Process, the pipelines' dumps and all readers (error accessor at the directory, its ancestors and its erroneous children, together, three times; Print; Find) walk it",
+		"namespace-to-module look-ups whose sequential answer is an error or a tie-break: two shared sets in three (a third of the private sets) hold one or two small modules tw0, tw1 that declare the namespace of one of the modules m<j> (two different modules, one namespace: FindModuleByNamespace and the InstantiatingModule of every node of these modules answer with an error, which is never cached), two in three (a third of the private sets) load one or two older revisions of a module that carries a revision statement (same namespace: the answer is the revision the bare name refers to; one older revision may declare a namespace of its own), before or after the other sources; every reader asks for every declared namespace and for one nobody declares, and for the instantiating module of every node, first of all after the orphan look-ups; answers are compared in canonical form: which object came back (name and the key of the module table it is filed under) or the text of the error",
+		fmt.Sprintf("namespace duels: %d times per round a fresh small set (3-5 modules drawn from 3 names x 4 revisions x 3 namespaces, half of them forced to hold two different modules with one namespace) is loaded and processed by one goroutine that makes no look-up on it; all goroutines of the round line up behind a start barrier, are released together and make the same calls in the same order (FindModuleByNamespace of the three namespaces and of one nobody declares, then Namespace and InstantiatingModule of a leaf of every module object), %d times over; every answer is compared with the answer of a twin set loaded afresh and asked sequentially, and the set itself is asked once more afterwards (what the concurrent callers left in the cache)", duelSets, duelReps),
 		"deep sets: the first private set of every pipeline is one module of 150-220 nested containers, converted by all pipelines at the same time; its dump must equal the sequential one (no process-wide budget or counter of the recursion)",
 		"directory sets: every other shared set (and a third of the private sets) is written to a directory that stays on the search path and is loaded by Read; its import / include statements carry revision-dates that are not the loaded revision; readers resolve prefixes (absolute prefixed Find, FindModuleByPrefix) against it",
 		"restrictions with the keywords min / max directly on built-in types (range on all integer types and decimal64, length on string and binary) occur in every set, so that the package-level range tables are the parents in concurrent pipelines",
